@@ -464,8 +464,12 @@ func (rn *c10Runner) runBatch(cases []c10Case, tag string) {
 			// the isolated attempt finished within the time limit and delivered a verdict: the first timeout was machine load
 			rn.slowOnce++
 		case in2 < 0:
-			rn.flaky = append(rn.flaky, fmt.Sprintf("case %d (%s %s@%d): first attempt died (%s | %s), second attempt completed", inflight, rest[idx].Kind, rest[idx].Region, rest[idx].Off,
-				sig, strings.ReplaceAll(tail, "\n", " | ")))
+			r2, _ := json.Marshal(rn.results[inflight])
+			if len(tail) > 900 {
+				tail = tail[:900]
+			}
+			rn.flaky = append(rn.flaky, fmt.Sprintf("case %d (%s %s@%d %s %x): first attempt died (%s | %s), second attempt completed with %s", inflight, rest[idx].Kind, rest[idx].Region, rest[idx].Off,
+				rest[idx].Op, rest[idx].Val, sig, strings.ReplaceAll(tail, "\n", " | "), string(r2)))
 		case to2 && timedOut:
 			rn.hangs[inflight] = true
 		case !to2 && !timedOut:
